@@ -103,7 +103,10 @@ void c19_case(Ctx& c, Rng& r) {
     if (surface == 0) {
         // handshake: validator = Node::perform_handshake (cool-down 0), digest = Node.cpp's own, CLI copy must agree
         const PeerId self = r.arr<32>(), claimed = r.arr<32>();
-        Node node(self, cfg);
+        const bool cooldown_on = r.chance(1, 2);
+        Config vcfg = cfg;
+        if (cooldown_on) vcfg.handshake_cooldown = seconds(5);   // the deployed default; the clock does not move during the loop
+        Node node(self, vcfg);
         const std::uint32_t scalar = static_cast<std::uint32_t>(r.range(2, network::KeyExchange::kPrime - 2));
         const std::uint32_t pub = network::KeyExchange::compute_public(scalar);
         const std::uint64_t base = r.next();
@@ -120,6 +123,13 @@ void c19_case(Ctx& c, Rng& r) {
             const bool cli = tu_cli::transport_pow_valid(claimed, self, pub, nonce, d);
             if (cli != want) c.violation("C19:handshake:cli-validator-disagrees", J().kv("d", d).kv("lz", lz_ref(dg)).str());
             if (tu_cli::transport_digest(claimed, self, pub, nonce) != dg) c.violation("C19:handshake:cli-and-node-digests-differ", J().kv("nonce", nonce).str());
+            // the same offer again straight away (a reconnecting or a persistent peer): same verdict, whatever was offered
+            // before; with a cool-down this goes through the "already validated" record instead of the hash
+            if (cooldown_on) {
+                const bool again = node.perform_handshake(claimed, pub, nonce);
+                c.note("validators.handshake-repeats-inside-cooldown");
+                if (again != want) c.violation(std::string("C19:handshake:validator-") + (again ? "accepts-below-target" : "rejects-valid") + ":repeat-inside-cooldown", J().kv("d", d).kv("lz", lz_ref(dg)).kv("nonce", nonce).kv("first_verdict", got).str());
+            }
             vec.push_back(got);
             accepted += got;
         }
